@@ -1,6 +1,7 @@
 package checks
 
 import (
+	"bytes"
 	"context"
 	"encoding/json"
 	"errors"
@@ -12,6 +13,7 @@ import (
 	"os"
 	"sort"
 	"strings"
+	"testing/iotest"
 
 	"github.com/gorilla/mux"
 	whttp "github.com/transparency-dev/witness/client/http"
@@ -24,13 +26,32 @@ import (
 func init() { Registry["C16"] = c16 }
 
 // handlerTransport serves HTTP requests in process.
-type handlerTransport struct{ h http.Handler }
+// handlerTransport answers from the handler directly. framing is the way the
+// answer reaches the client, as net/http may report it: "" = no Content-Length
+// (-1), "length" = Content-Length known, "length-bytewise" = known and the
+// body arriving one byte per Read.
+type handlerTransport struct {
+	h       http.Handler
+	framing string
+}
 
 func (t handlerTransport) RoundTrip(r *http.Request) (*http.Response, error) {
 	rec := httptest.NewRecorder()
 	t.h.ServeHTTP(rec, r)
-	return rec.Result(), nil
+	res := rec.Result()
+	if t.framing != "" {
+		b, _ := io.ReadAll(res.Body)
+		res.ContentLength = int64(len(b))
+		res.Header.Set("Content-Length", fmt.Sprint(len(b)))
+		res.Body = io.NopCloser(bytes.NewReader(b))
+		if t.framing == "length-bytewise" {
+			res.Body = io.NopCloser(iotest.OneByteReader(bytes.NewReader(b)))
+		}
+	}
+	return res, nil
 }
+
+var c16Framings = []string{"", "length", "length-bytewise"}
 
 func c16Get(h http.Handler, path string) (int, string, string) {
 	req := httptest.NewRequest(http.MethodGet, "http://witness.test"+path, nil)
@@ -44,7 +65,6 @@ func c16Monitor(run *ev.Run, logs []wh.LogCfg) func(*wh.Step) {
 	return func(s *wh.Step) {
 		e := s.Env
 		router := e.X["router"].(http.Handler)
-		cl := e.X["client"].(whttp.Witness)
 		rep := s.Replay()
 		accepted := map[string]bool{}
 		for id := range s.After.ByID {
@@ -60,7 +80,9 @@ func c16Monitor(run *ev.Run, logs []wh.LogCfg) func(*wh.Step) {
 				kind = "empty"
 			}
 			run.Hist("reads", fmt.Sprintf("%s->%d", kind, code))
-			sig := func(k string) string { return fmt.Sprintf("%s log-has-checkpoint=%v status=%d store=%s", k, has, code, e.Cfg.Store) }
+			sig := func(k string) string {
+				return fmt.Sprintf("%s log-has-checkpoint=%v status=%d store=%s", k, has, code, e.Cfg.Store)
+			}
 			if has {
 				if code != 200 || body != stored {
 					run.Report(sig("get-checkpoint"), fmt.Sprintf("after %q: GET checkpoint of %s returned %d and a body that %s the stored bytes", s.Req.Label, l.Origin, code, map[bool]string{true: "equals", false: "differs from"}[body == stored]), rep)
@@ -68,13 +90,17 @@ func c16Monitor(run *ev.Run, logs []wh.LogCfg) func(*wh.Step) {
 			} else if code != 404 {
 				run.Report(sig("get-checkpoint"), fmt.Sprintf("after %q: GET checkpoint of %s (nothing stored) returned %d %q", s.Req.Label, l.Origin, code, short(body)), rep)
 			}
-			got, err := cl.GetLatestCheckpoint(context.Background(), id)
-			if has {
-				if err != nil || string(got) != stored {
-					run.Report(sig("client"), fmt.Sprintf("after %q: client.GetLatestCheckpoint(%s) = %d bytes, err=%v; want the stored bytes", s.Req.Label, l.Origin, len(got), err), rep)
+			for _, fr := range c16Framings {
+				cl := e.X["client:"+fr].(whttp.Witness)
+				got, err := cl.GetLatestCheckpoint(context.Background(), id)
+				run.Add("client_reads", 1)
+				if has {
+					if err != nil || string(got) != stored {
+						run.Report(sig("client"), fmt.Sprintf("after %q: client.GetLatestCheckpoint(%s) [answer framing %q] = %d bytes, err=%v; want the stored bytes", s.Req.Label, l.Origin, fr, len(got), err), rep)
+					}
+				} else if !errors.Is(err, os.ErrNotExist) {
+					run.Report(sig("client"), fmt.Sprintf("after %q: client.GetLatestCheckpoint(%s) [answer framing %q] with nothing stored returned err=%v, want os.ErrNotExist", s.Req.Label, l.Origin, fr, err), rep)
 				}
-			} else if !errors.Is(err, os.ErrNotExist) {
-				run.Report(sig("client"), fmt.Sprintf("after %q: client.GetLatestCheckpoint(%s) with nothing stored returned err=%v, want os.ErrNotExist", s.Req.Label, l.Origin, err), rep)
 			}
 		}
 		// Log list = exactly the logs with an accepted update.
@@ -196,7 +222,9 @@ func c16(tier string) int {
 		ihttp.NewServer(e.W).RegisterHandlers(r)
 		e.X["router"] = http.Handler(r)
 		base, _ := url.Parse("http://witness.test/")
-		e.X["client"] = whttp.NewWitness(base, &http.Client{Transport: handlerTransport{r}})
+		for _, fr := range c16Framings {
+			e.X["client:"+fr] = whttp.NewWitness(base, &http.Client{Transport: handlerTransport{r, fr}})
+		}
 	}
 	cpB, mB := gen.Get(lb, u.Main, 2, "plain")
 	prelude := []wh.Req{{LogID: lb.ID(), CP: cpB, Meta: mB, Label: "prelude: first use of log B"}}
@@ -245,6 +273,6 @@ func c16(tier string) int {
 	run.Set("traces_validated_against_impl", trans)
 	run.Set("evaluations", trans)
 	run.Set("exhaustive", true)
-	run.Set("rule", fmt.Sprintf("explicit-state BFS over a three-log witness (IDs from the repository's origin-to-ID function; log B holds a checkpoint, log C never gets one and receives refused submissions), sizes 0..%d, checkpoint shapes plain / two extension lines (with %% and non-ASCII) / 17 KiB, 70 KiB and (thorough) 900 KiB of extension lines, both stores; after EVERY transition, through the router built by RegisterHandlers and through client/http.Witness: GET checkpoint of each log = 200 + exactly the stored bytes or 404 iff none, client returns the bytes / os.ErrNotExist, the log list decodes to exactly the logs with an accepted update; plus 20 unknown / odd IDs that must never be answered with a stored checkpoint. distinct_nontrivial = distinct (store, state before, state after)", n))
+	run.Set("rule", fmt.Sprintf("explicit-state BFS over a three-log witness (IDs from the repository's origin-to-ID function; log B holds a checkpoint, log C never gets one and receives refused submissions), sizes 0..%d, checkpoint shapes plain / two extension lines (with %% and non-ASCII) / 17 KiB, 70 KiB and (thorough) 900 KiB of extension lines, both stores; after EVERY transition, through the router built by RegisterHandlers and through client/http.Witness (answers framed without Content-Length, with it, and with it arriving one byte per Read): GET checkpoint of each log = 200 + exactly the stored bytes or 404 iff none, client returns the bytes / os.ErrNotExist, the log list decodes to exactly the logs with an accepted update; plus 20 unknown / odd IDs that must never be answered with a stored checkpoint. distinct_nontrivial = distinct (store, state before, state after)", n))
 	return run.Finish()
 }
